@@ -134,7 +134,8 @@ def struct_fields(src, name):
     m = re.search(r'struct\s+%s\s*\{(.*?)\n\}' % re.escape(name), src, re.S)
     if not m: return None
     body = re.sub(r'//[^\n]*', '', m.group(1))
-    return re.findall(r'(?:pub(?:\([^)]*\))?\s+)?(\w+)\s*:', body)
+    body = re.sub(r'#\[[^\]]*\]', '', body)
+    return re.findall(r'^\s*(?:pub(?:\([^)]*\))?\s+)?(\w+)\s*:(?!:)', body, re.M)
 
 
 class ZddExec(Exec):
